@@ -502,11 +502,27 @@ func origin(v ssa.Value) ssa.Value {
 						continue
 					}
 				}
+				// field of a local, non-escaping struct variable
+				if fa, ok := base.(*ssa.FieldAddr); ok {
+					if a, isA := fa.X.(*ssa.Alloc); isA && !allocEscapes(a) {
+						if fv := storedFieldValue(a, fa.Field, x); fv != nil {
+							v = fv
+							continue
+						}
+					}
+				}
 			}
 			return v
 		case *ssa.FreeVar:
 			if b := freeVarBinding(x); b != nil {
 				v = b
+				continue
+			}
+			return v
+		case *ssa.Field:
+			// field of a struct value built locally (parameters bundled into a struct, small result structs)
+			if fv := localFieldValue(x.X, x.Field, x); fv != nil {
+				v = fv
 				continue
 			}
 			return v
@@ -1372,4 +1388,84 @@ func returnLeavesOfCall(v ssa.Value) (leaves []ssa.Value, callee *ssa.Function, 
 		leaves = append(leaves, phiLeaves(rv)...)
 	})
 	return leaves, f, len(leaves) > 0
+}
+
+// allocEscapes: the address of the local is used for anything but field/whole loads and stores (so other code could write it).
+func allocEscapes(a *ssa.Alloc) bool {
+	for _, r := range *a.Referrers() {
+		switch x := r.(type) {
+		case *ssa.FieldAddr, *ssa.DebugRef:
+		case *ssa.UnOp:
+			if x.Op != token.MUL {
+				return true
+			}
+		case *ssa.Store:
+			if x.Val == ssa.Value(a) {
+				return true
+			}
+		default:
+			return true
+		}
+	}
+	return false
+}
+
+// storedFieldValue: the value the field of local struct variable a holds at `at`: the latest dominating store to that field,
+// provided no whole-struct store and no other store to the field can intervene.
+func storedFieldValue(a *ssa.Alloc, field int, at ssa.Instruction) ssa.Value {
+	var best *ssa.Store
+	var others, whole []*ssa.Store
+	for _, r := range *a.Referrers() {
+		switch x := r.(type) {
+		case *ssa.FieldAddr:
+			if x.Field != field {
+				continue
+			}
+			for _, r2 := range *x.Referrers() {
+				if st, ok := r2.(*ssa.Store); ok && st.Addr == ssa.Value(x) {
+					others = append(others, st)
+				}
+			}
+		case *ssa.Store:
+			if x.Addr == ssa.Value(a) {
+				whole = append(whole, x)
+			}
+		}
+	}
+	if len(whole) > 0 {
+		// a struct parameter or result kept in memory: one whole-struct store and no field stores; the field of what was stored
+		if len(whole) == 1 && len(others) == 0 && dominates(whole[0], at) {
+			return localFieldValue(whole[0].Val, field, whole[0])
+		}
+		return nil
+	}
+	for _, st := range others {
+		if dominates(st, at) && (best == nil || dominates(best, st)) {
+			best = st
+		}
+	}
+	if best == nil {
+		return nil
+	}
+	for _, st := range others {
+		if st != best && !dominates(st, best) && reaches(st, at) {
+			return nil
+		}
+	}
+	return best.Val
+}
+
+// localFieldValue: the value of field i of struct value sv (a load of a local struct variable, possibly handed to a private
+// helper as argument) at `at`.
+func localFieldValue(sv ssa.Value, field int, at ssa.Instruction) ssa.Value {
+	o := origin(sv)
+	u, ok := o.(*ssa.UnOp)
+	if !ok || u.Op != token.MUL {
+		return nil
+	}
+	a, ok := u.X.(*ssa.Alloc)
+	if !ok || allocEscapes(a) {
+		return nil
+	}
+	return storedFieldValue(a, field, u)
 }
